@@ -565,11 +565,33 @@ func TestReplay(t *testing.T) {
 
 type rereadCase struct {
 	Data []byte `json:"data"`
+	// Between: other inputs read between the repetitions (a result must not
+	// depend on what the process read before)
+	Between []string `json:"between,omitempty"`
+}
+
+// perturbing inputs: programs that store into objects every interpreter
+// instance can reach
+var perturbations = []string{
+	"%!\nStandardEncoding 66 /A put StandardEncoding 65 /B put\n",
+	"%!\nStandardEncoding 0 1 255 {1 index exch /X put} for pop\n",
+	"%!\nFontDirectory /Leak 1 dict put\n",
+	"%!\n1183615869 internaldict /startlock {stop} put\n",
+	"%!\nerrordict /undefined {pop} put errordict /typecheck {stop} put\n",
+	"%!\nuserdict /RD {pop pop} put userdict /def {pop pop} put\n",
+	"%!\nsystemdict /readonly {stop} put systemdict /StandardEncoding [1 2 3] put\n",
+	"%!\n/CIDInit /ProcSet findresource /begincmap {stop} put\n",
+	"%!\n/Leak 10 dict /Font defineresource pop /Leak2 <<>> definefont pop\n",
 }
 
 func checkReread(c *rereadCase) string {
 	f1, err1 := type1.Read(bytes.NewReader(c.Data))
 	for r := 1; r < repeats; r++ {
+		if len(c.Between) > 0 {
+			p := c.Between[(r-1)%len(c.Between)]
+			type1.Read(strings.NewReader(p))
+			postscript.ReadCMap(strings.NewReader(p))
+		}
 		f2, err2 := type1.Read(bytes.NewReader(c.Data))
 		if (err1 == nil) != (err2 == nil) {
 			return fmt.Sprintf("reading the same bytes gives err=%v, then err=%v", err1, err2)
@@ -622,7 +644,7 @@ func nestedSeacFont(t *rapid.T) []byte {
 func TestP3Reread(t *testing.T) {
 	rec := ev.New("C17", "reread")
 	defer rec.Finish(t)
-	rec.Rule(fmt.Sprintf("fonts laid out by the independent writer (model fonts of the C06 generator with subrs/flex/several accented composites, and fonts whose composites refer to other composites in chains of 2-6 defined in a drawn order - not conforming, but any accepted input must read deterministically) are read %d times from the same bytes; all results must be deep-equal. Non-trivial: font has >= 2 composites; distinct by bytes.", repeats))
+	rec.Rule(fmt.Sprintf("fonts laid out by the independent writer (model fonts of the C06 generator with subrs/flex/several accented composites, and fonts whose composites refer to other composites in chains of 2-6 defined in a drawn order - not conforming, but any accepted input must read deterministically) are read %d times from the same bytes, in half of the cases with other inputs read in between (programs that store into StandardEncoding, FontDirectory, internaldict, errordict, userdict, systemdict, the CIDInit procedure set or the resource directories); all results must be deep-equal. Non-trivial: font has >= 2 composites; distinct by bytes.", repeats))
 	ev.SetupRapid(3000, 64000)
 	rapid.Check(t, func(t *rapid.T) {
 		var data []byte
@@ -638,6 +660,12 @@ func TestP3Reread(t *testing.T) {
 			multi = feat["seac-several"]
 		}
 		c := &rereadCase{Data: data}
+		if rapid.Bool().Draw(t, "history") {
+			rec.Class("with-other-inputs-between")
+			for i := rapid.IntRange(1, 3).Draw(t, "nbetween"); i > 0; i-- {
+				c.Between = append(c.Between, rapid.SampledFrom(perturbations).Draw(t, "between"))
+			}
+		}
 		rec.Eval(1)
 		if multi {
 			rec.NonTrivialHash(ev.Hash(string(data)))
